@@ -124,3 +124,16 @@ func TestBinary(t *testing.T) {
 	}
 	fmt.Printf("SCENARIOS-RUN %d\n", n)
 }
+
+// TestRedisPair replays Redis command-level schedules ($VERIF_IN) of two store instances against miniredis.
+func TestRedisPair(t *testing.T) {
+	in, out := os.Getenv("VERIF_IN"), os.Getenv("VERIF_OUT")
+	if in == "" || out == "" {
+		t.Skip("VERIF_IN / VERIF_OUT not set")
+	}
+	n, err := runPairFile(in, out)
+	if err != nil {
+		t.Fatalf("redis pair driver: %v (after %d scenarios)", err, n)
+	}
+	fmt.Printf("SCENARIOS-RUN %d\n", n)
+}
